@@ -175,6 +175,9 @@ def replay(mod, ctx, path):
     text = open(path).read()
     if path.endswith(".json"):
         print(text); return 1
+    if "## pure" in text:
+        from . import pure
+        return pure.replay_pure(text)
     ops = "\n".join(l for l in text.splitlines() if not l.startswith("##")) + "\n"
     hdr = dict(kv.split("=", 1) for l in text.splitlines() if l.startswith("## trace ") for kv in l.split()[2:] if "=" in kv)
     tr = Trace("replay", ops, hdr.get("variant", getattr(mod, "REPLAY_VARIANT", "plain")), hdr.get("backend", "file"),
